@@ -156,8 +156,21 @@ Qed.
 Lemma tmpl_of_gok p n : tmpl_gok (tmpl_of p n).
 Proof. apply tmpl_gokb_ok. destruct p; reflexivity. Qed.
 
+(* captured handles only add edges *)
+Lemma tmpl_gok_with_keeps t owner first nk : tmpl_gok t -> tmpl_gok (with_keeps t owner first nk).
+Proof.
+  intros G tgt I. destruct (G tgt I) as (k & Ik & Ie). exists k. split; [exact Ik|].
+  cbn [with_keeps t_edges]. apply in_or_app. left. exact Ie.
+Qed.
+
+Lemma tmpl_with_gok p n nk : tmpl_gok (tmpl_with p n nk).
+Proof. unfold tmpl_with. destruct (fun_owner p); [apply tmpl_gok_with_keeps|]; apply tmpl_of_gok. Qed.
+
 Lemma t_lift2_gok : tmpl_gok t_lift2.
 Proof. apply tmpl_gokb_ok. reflexivity. Qed.
+
+Lemma lift_tm_gok rest keeps : tmpl_gok (lift_tm rest keeps).
+Proof. unfold lift_tm. destruct rest; [apply tmpl_gok_with_keeps|]; exact t_lift2_gok. Qed.
 
 Lemma inst_slot_handles t args base :
   s_h (inst_slot t args base) = map (resolve args base) (map RNew (t_keep t)) /\
@@ -378,23 +391,26 @@ Proof.
 Qed.
 
 (* lift2 .. lift6 *)
-Lemma lift_chain_GInv h : forall rest st acc first st',
+Lemma lift_chain_GInv h keeps : forall rest st acc first st',
   WF (hs st) -> GInv st -> ghost_cond st acc -> disj_cond st acc ->
-  lift_chain st h acc first rest = Ok st' -> GInv st'.
+  lift_chain st h acc first rest keeps = Ok st' -> GInv st'.
 Proof.
-  induction rest as [|c rest IH]; intros st acc first st' W G Ga Da H; cbn [lift_chain] in H.
-  - injection H as <-. apply with_slot_GInv; assumption.
-  - rewrite (WF_len st W) in H.
-    destruct (run_ops st (inst_ops t_lift2 [acc; c] (length (ext (hs st)))) (t_new t_lift2)) as [st1| |] eqn:R1;
+  induction rest as [|c rest IH]; intros st acc first st' W G Ga Da H.
+  - cbn [lift_chain] in H. injection H as <-. apply with_slot_GInv; assumption.
+  - rewrite lift_chain_cons, (WF_len st W) in H.
+    set (tm := lift_tm rest keeps) in *. set (ar := lift_ar acc c rest keeps) in *.
+    assert (Gc : t_gclone tm = []) by apply lift_tm_gclone.
+    destruct (run_ops st (inst_ops tm ar (length (ext (hs st)))) (t_new tm)) as [st1| |] eqn:R1;
       try discriminate.
     pose proof (run_ops_WF _ _ _ _ W R1) as W1.
     pose proof (GInv_plain _ _ _ _ R1 (plain_inst_ops _ _ _) G) as G1.
     pose proof (run_ops_inv _ _ _ _ R1) as (Rs1 & S1 & L1).
-    assert (Gs : ghost_cond st1 (inst_slot t_lift2 [acc; c] (length (ext (hs st))))).
-    { intros x Hx. apply (inst_slot_ghost (hs st) t_lift2 2 [acc; c] (hs st1) W t_lift2_ok t_lift2_gok); auto.
-      intros r []. }
-    assert (Ds : disj_cond st (inst_slot t_lift2 [acc; c] (length (ext (hs st))))).
-    { apply (inst_slot_disj st t_lift2 2 [acc; c] G t_lift2_ok). intros r0 l r []. }
+    assert (Gs : ghost_cond st1 (inst_slot tm ar (length (ext (hs st))))).
+    { intros x Hx.
+      apply (inst_slot_ghost (hs st) tm 2 ar (hs st1) W (lift_tm_ok rest keeps) (lift_tm_gok rest keeps)); auto.
+      rewrite Gc. intros r []. }
+    assert (Ds : disj_cond st (inst_slot tm ar (length (ext (hs st))))).
+    { apply (inst_slot_disj st tm 2 ar G (lift_tm_ok rest keeps)). rewrite Gc. intros r0 l r []. }
     destruct first.
     + apply (IH st1 _ false st' W1 G1 Gs); [|exact H]. unfold disj_cond. rewrite L1. exact Ds.
     + destruct (run_ops st1 (drop_slot_ops acc) []) as [st2| |] eqn:R2; try discriminate.
@@ -409,12 +425,15 @@ Qed.
 Theorem hstep_GInv st op st' : WF (hs st) -> TInv st -> GInv st -> hstep st op = Ok st' -> GInv st'.
 Proof.
   intros W I G H. pose proof I as [T N1 N2 OK].
-  destruct op as [h p args|h args|h c|l t|l s strong|l c|l|l|h h'|h| |]; cbn [hstep] in H.
+  destruct op as [h p args0 keeps|h args keeps|h c|l t|l s strong|l c|l|l|h h'|h| |]; cbn [hstep] in H.
   - (* HDef *)
-    destruct (lookups (slots st) args) as [sl|] eqn:L; [|injection H as <-; exact G].
+    destruct (lookups (slots st) args0) as [sl0|] eqn:L0; [|injection H as <-; exact G].
+    destruct (lookups (slots st) keeps) as [kl|] eqn:Lk; [|injection H as <-; exact G].
     destruct (free_slot st h) eqn:F; cbn [andb] in H; [|injection H as <-; exact G].
-    destruct (arity_ok p (length args)) eqn:A; [|injection H as <-; exact G].
-    pose proof (tmpl_of_ok _ _ A) as K.
+    destruct (arity_ok p (length args0)) eqn:A; [|injection H as <-; exact G].
+    pose proof (tmpl_with_ok p (length args0) (length keeps) A) as K. rewrite <- app_length in K.
+    pose proof (lookups_app _ _ _ _ _ L0 Lk) as L.
+    set (args := args0 ++ keeps) in *. set (sl := sl0 ++ kl) in *.
     unfold def_slot in H. rewrite (WF_len st W) in H.
     match type of H with context [run_ops st ?o ?n] => destruct (run_ops st o n) as [st1| |] eqn:R; try discriminate end.
     injection H as <-.
@@ -422,19 +441,20 @@ Proof.
     pose proof (run_ops_inv _ _ _ _ R) as (Rs & S1 & L1).
     apply with_slot_GInv; [exact G1| |].
     + intros x Hx. cbn [s_h s_g] in *.
-      apply (inst_slot_ghost (hs st) _ _ sl (hs st1) W K (tmpl_of_gok _ _)); auto.
+      apply (inst_slot_ghost (hs st) _ _ sl (hs st1) W K (tmpl_with_gok _ _ _)); auto.
       intros r Hr. apply (gclone_pos st args sl _ r T OK L). apply (ok_gclone _ _ K). exact Hr.
     + intros l r x Ll Ix. cbn [s_h s_g] in Ix. rewrite L1 in Ll.
       refine (inst_slot_disj st _ _ sl G K _ l r x Ll Ix).
       intros r0 l0 rr Hr Lr. destruct (gclone_in_slot st args sl (length (ext (hs st))) r0 OK L (ok_gclone _ _ K r0 Hr))
-        as (k & s & Lk & Ik). apply (gh_disj _ G k s l0 rr _ Lk Lr Ik).
+        as (k & s & Lks & Ik). apply (gh_disj _ G k s l0 rr _ Lks Lr Ik).
   - (* HLift *)
     destruct (lookups (slots st) args) as [[|a [|b rest]]|] eqn:L; try (injection H as <-; exact G).
+    destruct (lookups (slots st) keeps) as [kl|]; [|injection H as <-; exact G].
     destruct (free_slot st h) eqn:F; [|injection H as <-; exact G].
     cbn [lookups] in L. destruct args as [|ka args]; [discriminate|]. cbn [lookups] in L.
     destruct (lookup (slots st) ka) as [sa|] eqn:La; [|discriminate].
     destruct (lookups (slots st) args) as [tl|]; [|discriminate]. injection L as E1 E2. subst sa.
-    apply (lift_chain_GInv h (b :: rest) st a true st' W G); [| |exact H].
+    apply (lift_chain_GInv h kl (b :: rest) st a true st' W G); [| |exact H].
     + intros x Hx. apply (gh_ghost _ G ka a x La Hx).
     + intros l0 r x Ll Ix. apply (gh_disj _ G ka a l0 r x La Ll Ix).
   - (* HUpdates *)
